@@ -534,16 +534,71 @@ def phase_reentrant(args):
     return dict(phase="reentrant", states=8, transitions=n, viols=viols[:20], nviols=len(viols))
 
 
+def phase_threads(args):
+    """(vii) the sends of one endpoint come from two threads, strictly one after the other (an application thread next to
+    the loop's thread - the endpoint guards its numbering with a lock for this): the numbering per destination is one,
+    whoever sends.  All 32 patterns of five sends {loop thread, other thread} to one destination, once from id 1 and once
+    across the wrap, a second worker thread in half of them.  No concurrency is involved: every send is joined before
+    the next one starts"""
+    import threading
+    seed = args
+    viols = []
+    n = 0
+    for start in (1, 0xFFFF - 2):
+        loop = VLoop().install()
+        try:
+            prot = make_sd(loop)
+            model0 = Model()
+            for _ in range(start - 1):
+                send_and_decode(prot, P1)  # real sends up to the starting id; the table reached is then re-installed per pattern
+                model0.take(P1)
+            st = save(prot)
+            for pattern in itertools.product((0, 1), repeat=5):
+                restore(prot, st)
+                model = model0.copy()
+                prot.transport.sent.clear()
+                errors = []
+
+                def work():
+                    try:
+                        prot.send_sd([ENTRY], remote=P1)
+                    except Exception as e:  # noqa: BLE001
+                        errors.append(type(e).__name__)
+
+                for i, who in enumerate(pattern):
+                    if who:
+                        th = threading.Thread(target=work, name=f"app-{i % 2 if sum(pattern) % 2 else 0}")
+                        th.start()
+                        th.join()
+                    else:
+                        work()
+                if errors:
+                    viols.append(("no-exception", "send-from-thread-" + errors[0], f"send_sd raised {errors}", None))
+                for _, _, data, addr in prot.transport.sent:
+                    for m in refcodec.dec_sd_datagram(data):
+                        n += 1
+                        want = model.take(addr)
+                        if (m["reboot"], m["session"]) != want:
+                            viols.append(("sequence", "id-sends-from-two-threads", f"sends to {P1} from id {start} by (0 = loop thread, "
+                                          f"1 = another thread, one after the other) {pattern}: message carries "
+                                          f"{(m['reboot'], m['session'])}, expected {want}", None))
+                if len(prot.transport.sent) != 5:
+                    viols.append(("sequence", "count-sends-from-two-threads", f"{len(prot.transport.sent)} datagrams for five sends", None))
+        finally:
+            loop.dispose()
+    return dict(phase="threads", states=64, transitions=n, viols=viols[:20], nviols=len(viols))
+
+
 def _run(job):
     kind, args = job
     return {"cycle": phase_cycle, "interleave": phase_interleave, "notify": phase_notify,
-            "sendrecv": phase_sendrecv, "leave": phase_leave, "reentrant": phase_reentrant}[kind](args)
+            "sendrecv": phase_sendrecv, "leave": phase_leave, "reentrant": phase_reentrant, "threads": phase_threads}[kind](args)
 
 
 def check(ctx):
     jobs = [("cycle", (ctx.seed, 20)), ("interleave", (ctx.seed, 3, 6)), ("notify", (ctx.seed, 8200)),
             ("sendrecv", (ctx.seed, ctx.pick(4, 6))), ("interleave", (ctx.seed, 3, 4, "v6scope")),
-            ("interleave", (ctx.seed, 3, 5, "fresh")), ("interleave", (ctx.seed + 1, 2, 6, "fresh")), ("leave", ctx.seed), ("reentrant", ctx.seed)]
+            ("interleave", (ctx.seed, 3, 5, "fresh")), ("interleave", (ctx.seed + 1, 2, 6, "fresh")), ("leave", ctx.seed), ("reentrant", ctx.seed), ("threads", ctx.seed)]
     if ctx.thorough:
         jobs += [("interleave", (ctx.seed, 4, 8)), ("interleave", (ctx.seed + 1, 2, 12)),
                  ("notify", (ctx.seed, 17000))]
@@ -565,7 +620,7 @@ def check(ctx):
     return core.finish(ctx, "model_checking", cov, viols, [
         "destinations are independent table keys: the full cycle is walked for one unicast destination, the joint "
         "state space of several destinations is explored around the wrap only",
-        "single thread; the outgoing lock is uncontended",
+        "no concurrent sends: phase (vii) uses a second thread, but strictly one send after the other (the outgoing lock is uncontended)",
     ])
 
 
